@@ -53,10 +53,21 @@ func runChunks(c chunkCase) string {
 	}
 	w := o.Stdout()
 	var input []byte
+	// One caller buffer is reused for every write call (the way io.Copy feeds a command's output) and
+	// scribbled over after each call: io.Writer implementations must not retain or modify p.
+	cbuf := make([]byte, 0, 64)
 	for _, ch := range c.Chunks {
-		n, err := w.Write([]byte(ch))
+		cbuf = append(cbuf[:0], ch...)
+		n, err := w.Write(cbuf)
 		if err != nil || n != len(ch) {
 			return fmt.Sprintf("Write(%q) returned %d, %v", ch, n, err)
+		}
+		if string(cbuf) != ch {
+			return fmt.Sprintf("Write(%q) modified the caller's buffer: %q", ch, cbuf)
+		}
+		full := cbuf[:cap(cbuf)]
+		for i := range full {
+			full[i] = '#'
 		}
 		input = append(input, ch...)
 	}
